@@ -39,6 +39,20 @@ Definition MAX_STRUCT_SIZE : nat := 16.
 Definition starts_pat (t : tok) : bool :=
   match t with TP LBrace | TP LParen | TP Under | TLow _ | TUp _ => true | _ => false end.
 
+(* literal tokens as the lexer can produce them (C06 literal gate, C08/Lit.v): an int literal is in range (or the merged
+   -2147483648), a string literal's interior is one the lexer walks over; other literal tokens cannot reach the parser
+   and are rejected here *)
+Definition int_ok (z : Z) : bool := ((0 <=? z) && (z <=? MAX) || (z =? MIN))%Z.
+(* the value of an accepted string literal: its escaped form is a literal interior and unescapes to it *)
+Definition str_ok (s : list N) : bool :=
+  match walk (escape s) false with
+  | Some false => nstr_eqb (unescape (escape s)) s
+  | _ => false
+  end.
+Definition lit_ok (l : lit) : bool :=
+  match l with LInt z => int_ok z | LStr s => str_ok s | LBool _ => true end.
+
+
 Section Expr.
 Variable tps : list nat.        (* available_tparams while the member is parsed *)
 
@@ -157,6 +171,7 @@ Definition cover_end (pe : pexpr) (ids : list nat) (ts : list tok) : presult fex
     do r1 <- expect Arrow r0;
     do (b, r2) <- pe r1;
     Some (XLam (map (fun i => (i, None)) ids) b, r2)
+  else if MAX_STRUCT_SIZE <? length ids then None      (* since 70138aa the tuple of identifiers is limited as well; the lambda is not *)
   else
     match ids with
     | [_] => None                       (* `(a,)` *)
@@ -235,8 +250,8 @@ Definition base_expr (rec : erec) (ts : list tok) : presult fexpr :=
   match ts with
   | TK KTrue :: r => Some (XLit (LBool true), r)
   | TK KFalse :: r => Some (XLit (LBool false), r)
-  | TInt z :: r => Some (XLit (LInt z), r)
-  | TStr s :: r => Some (XLit (LStr (unescape s)), r)
+  | TInt z :: r => if int_ok z then Some (XLit (LInt z), r) else None
+  | TStr s :: r => if str_ok (unescape s) then Some (XLit (LStr (unescape s)), r) else None
   | TK KThis :: r => Some (XThis, r)
   | TLow n :: r => Some (XId n, r)
   | TUp n :: r => Some (XCls n, r)
@@ -521,16 +536,6 @@ Definition fknown_node (e : fexpr) : bool := fk1 e || fk3 e.
 Definition fknown (e : fexpr) : bool := negb (fall (fun x => negb (fknown_node x)) e).
 
 (* ------------------------------------------------------------------ trees the parser can produce *)
-Definition int_ok (z : Z) : bool := ((0 <=? z) && (z <=? MAX) || (z =? MIN))%Z.
-(* the value of an accepted string literal: its escaped form is a literal interior and unescapes to it *)
-Definition str_ok (s : list N) : bool :=
-  match walk (escape s) false with
-  | Some false => nstr_eqb (unescape (escape s)) s
-  | _ => false
-  end.
-Definition lit_ok (l : lit) : bool :=
-  match l with LInt z => int_ok z | LStr s => str_ok s | LBool _ => true end.
-
 Definition is_xid (e : fexpr) : bool := match e with XId _ => true | _ => false end.
 Definition is_block (e : fexpr) : bool := match e with XBlock _ _ => true | _ => false end.
 Definition is_if (e : fexpr) : bool := match e with XIf _ _ _ _ => true | _ => false end.
@@ -543,7 +548,7 @@ Definition oannot_ok (a : option annot) : bool := match a with Some x => annot_o
 Definition fwf_node (e : fexpr) : bool :=
   match e with
   | XLit l => lit_ok l
-  | XTuple es => (2 <=? length es) && ((length es <=? MAX_STRUCT_SIZE) || forallb is_xid es)
+  | XTuple es => (2 <=? length es) && (length es <=? MAX_STRUCT_SIZE)
   | XField _ _ _ tas => forallb annot_ok tas
   | XIf g _ b1 e2 => match g with Some p => wf_pat p | None => true end && is_block b1 && (is_block e2 || is_if e2)
   | XMatch _ arms => negb (match arms with [] => true | _ => false end) && forallb (fun pb => wf_pat (fst pb)) arms
